@@ -201,6 +201,7 @@ def part_constants(ctx, rng, work, events, meta, quick):
     # a file that gives rp itself (legal: rp is a public constant and setupCylindricalGrid accepts it as keyword)
     c2 = get_constants(scenarios.write_constants(os.path.join(work, "c_rp.json"), rp=5.5))
     sources.append(("file with explicit rp", json.dumps(dict(scenarios.CONSTANTS, rp=5.5))))
+    sources.append(("file with explicit CN0 and rp", json.dumps(dict(scenarios.CONSTANTS, CN0=0.14711, rp=6.25))))
     sources.append(("file with zero-valued constants", json.dumps(dict(scenarios.CONSTANTS, eps=0.0, m=0, n=0, iotaVal=0.0, kN0=0.0, zMin=0.0))))
     nperm = 12 if quick else 120
     for name, text in sources:
